@@ -39,9 +39,15 @@ type Prog struct {
 	sentinelOK map[*ssa.Global]bool
 	lockReqs   map[*ssa.Function][]lockReq
 	monotone   map[string]*GuardDecl // "typeName.field"
+	anchorErrs []anchorErr
 	fvTargets  map[string][]*ssa.Function
 	rules      []*Rule
 	ghostGlobals map[string]*GhostField
+}
+
+type anchorErr struct {
+	fc  *FuncContract
+	msg string
 }
 
 func relKey(fn *ssa.Function) string {
@@ -255,7 +261,10 @@ func (p *Prog) indexSpecs() error {
 						}
 					}
 				}
-				return fmt.Errorf("%s:%d: contract target %q not found in package %s (anchor lost)", fc.File, fc.Line, key, path)
+				// the function a contract is anchored to no longer exists: reported as a violation of every property
+				// the contract carries a clause for (the assurance is lost), not as a load failure
+				p.anchorErrs = append(p.anchorErrs, anchorErr{fc, fmt.Sprintf("%s:%d: contract target %q not found in package %s (anchor lost)", fc.File, fc.Line, key, path)})
+				continue
 			}
 			p.contracts[fn] = fc
 		}
